@@ -71,7 +71,10 @@ def _r1(chk, repo):
     jd = repo.cls(f"{JD}:JointDistribution")
     f = repo.method(jd, "logd")[1]
     v, g = cfgv(repo, jd, f, 4)       # helpers not inlined: the rule is about the call of _parse_args_add_to_kwargs
-    loops = [n for n in g.nodes if n.kind == "iter" and path_of(n.ast.iter) == "self._densities"]
+    # where the factors are evaluated: the loop over self._densities, or the statement holding its normal form (a sum over a generator)
+    loops = [n for n in g.nodes if n.kind == "iter" and path_of(n.ast.iter) == "self._densities"] + \
+            [n for n in g.nodes if n.kind in ("stmt", "return") and n.ast is not None
+             and any(isinstance(c_, ast.comprehension) and path_of(c_.iter) == "self._densities" for c_ in ast.walk(n.ast))]
     rec = len(loops) == 1
     l0 = loops[0] if rec else None
     ok = rec and any(guarded(g, l0, p, lab) for p, lab in (("set(kwargs.keys())!=set(self.get_parameter_names())", "F"), ("set(self.get_parameter_names())!=set(kwargs.keys())", "F"),
@@ -237,6 +240,14 @@ def _r3_r4(chk, repo):
     b, _ = unify(["$acc=0", "for: $d : self._densities", "$acc+=$d.logd(**" + SELECT + ")", "return $acc"], S)
     import re
     rec = any(re.match(r"^[A-Za-z_]\w*\+=[A-Za-z_]\w*\.logd\(", t) for t, _ in S)     # landmark: a loop accumulates factor.logd(...)
+    if b is None:
+        # the accumulation loop in its normal form (sa/canon.py: `acc = 0; for d in X: acc += e` is `acc = sum(e for d in X)`)
+        SUM = pn("sum((_k0.logd(**{_k1:_k2 for _k1,_k2 in kwargs.items() if _k1 in _k0.get_parameter_names()}) for _k0 in self._densities))")
+        if any(t == "return " + SUM for t, _ in S):
+            b = {}
+        else:
+            b, _ = unify(["$acc=" + SUM, "return $acc"], S)
+        rec = rec or any("for _k0 in self._densities" in t and ".logd(" in t for t, _ in S)
     chk.decide("C01-R3", f"{jd.qual}.logd/loop", b is not None, rec, site(repo, f), "sum over ALL factors of factor.logd(its own variables)",
                "joint log-density does not sum every factor evaluated at exactly its own variables", f)
     c = repo.method(jd, "_condition")[1]
